@@ -24,6 +24,7 @@ import (
 	"path/filepath"
 	"reflect"
 	"sort"
+	"strconv"
 	"strings"
 	"sync"
 
@@ -362,6 +363,20 @@ func classify(c ocase, diff []string) string {
 		if cm, ok := o.(*api.ConfigMap); ok {
 			if _, ok := cm.Data["auth-proxy"]; ok && authURL {
 				return "C06/auth-proxy-range-exhausted"
+			}
+		}
+	}
+	// tcp-services ConfigMap: two keys that are one port number
+	for _, o := range all {
+		if cm, ok := o.(*api.ConfigMap); ok && cm.Name == "tcp-services" {
+			ports := map[int]bool{}
+			for k := range cm.Data {
+				if n, err := strconv.Atoi(k); err == nil {
+					if ports[n] {
+						return "C06/tcp-configmap-same-port"
+					}
+					ports[n] = true
+				}
 			}
 		}
 	}
